@@ -66,6 +66,7 @@ TOL_GAP_REL = 1e-5           # optimisation route: f(x_ref) - f(x) <= TOL * max(
 TOL_GAIN_REL = 1e-6          # neighbourhood: logd(x+d) - logd(x) <= TOL * max(1, |logd(x) - logd(x_start)|)
 TOL_GRAD_REL = 1e-2          # |grad(x)|_inf <= TOL * gradient scale away from x
 TOL_COV_REL = 1e-7
+ABS_TOL_GAP = 1e-5           # linear-Gaussian cases: log-density gaps are scale free (0.5 = one posterior standard deviation)
 GROSS_RATIO = 1.0            # non-smooth objectives: a neighbour better by more than the whole climb from the start is never excused
 
 # ----------------------------------------------------------------------------- case generation
@@ -239,21 +240,23 @@ def _call(fn, *a, **k):
 def _vec(x):
     return np.asarray(x, dtype=float).ravel()
 
-def optim_tolerance(H, xref, climb):
-    """Log-density gap a correct optimiser may leave on a quadratic with Hessian H: it stops at
-    |g|_inf <= gtol (1e-5, scipy default) or at the accuracy of forward-difference gradients
-    (about 1e-8*lambda_max*|x|), and then f(x*) - f(x) <= |g|_2^2 / (2 lambda_min).  Factor 100 on top.
-    Returns (tolerance, well_posed); problems whose derived tolerance is not small against the climb
-    from the start are not judged (ill-conditioned for any gradient method)."""
+def optim_tolerance(H, xref, climb=None, exact_grad=False):
+    """Log-density gap (a scale-free quantity: 0.5 = one posterior standard deviation) that a correct
+    optimiser may leave on a quadratic with Hessian H.  It stops at |g|_inf <= gtol (1e-5 absolute, scipy
+    default) or at the accuracy of its gradients (forward differences with absolute step 1.5e-8*max(1,|x|):
+    about 1e-8*lambda_max*(1+|x|); exact gradients: rounding, 1e-13*lambda_max*|x|), and then
+    f(x*) - f(x) <= |g|_2^2 / (2 lambda_min).  Factor 100 on top, floor ABS_TOL_GAP.
+    Returns (tolerance, well_posed): when the derived tolerance exceeds 1e-2 (a tenth of a standard
+    deviation) the problem is badly scaled for the library's fixed solver settings and is not judged."""
     w = np.linalg.eigvalsh(0.5 * (H + H.T))
     n = len(w)
-    base = TOL_GAP_REL * max(1.0, climb)
     if w[0] <= 0:
-        return base, False
-    g_ach = 1e-5 + 1e-8 * w[-1] * (1.0 + float(np.max(np.abs(xref))))
+        return ABS_TOL_GAP, False
+    xm = float(np.max(np.abs(xref)))
+    g_ach = 1e-5 + (1e-13 * w[-1] * xm if exact_grad else 1e-8 * w[-1] * (1.0 + xm))
     derived = 100.0 * n * g_ach ** 2 / (2.0 * w[0])
-    tol = max(base, derived)
-    return tol, bool(tol <= 1e-3 * max(1.0, climb))
+    tol = max(ABS_TOL_GAP, derived)
+    return tol, bool(tol <= 1e-2)
 
 # ----------------------------------------------------------------------------- neighbourhood oracle
 
@@ -265,18 +268,49 @@ def _safe_logd(dens, x):
     except REFUSALS:
         return None
 
-def probe_estimate(ctx, cfg, dens, xh, x_start, rs, f_ref=None, smooth=True, label="MAP", tol_floor=0.0):
-    """Neighbourhood + gradient oracle for one returned estimate.  Returns a small dict of facts."""
+def probe_estimate(ctx, cfg, dens, xh, x_start, rs, f_ref=None, smooth=True, label="MAP", tol_floor=0.0, metric=None):
+    """Neighbourhood + gradient oracle for one returned estimate.  Returns a small dict of facts.
+    `metric` = reference Hessian of the (quadratic) log-density when the harness knows it: neighbours are then
+    also generated in units of standard deviations (the problem may live at any scale) and the tolerance on the
+    gain is absolute in log-density units instead of relative to the climb from the start."""
     n = len(xh)
+    Wm = None
+    if metric is not None:
+        try:
+            Lm = np.linalg.cholesky(0.5 * (metric + metric.T))
+            Wm = np.linalg.inv(Lm).T                      # columns: unit steps (1 sd) of the whitened coordinates
+        except np.linalg.LinAlgError:
+            Wm = None
     f0 = _safe_logd(dens, xh)
     if f0 is None or not np.isfinite(f0):
         ctx.count("logd_unavailable_at_estimate")
         return {"probed": False}
     fs = _safe_logd(dens, x_start)
     climb = abs(f0 - fs) if (fs is not None and np.isfinite(fs)) else 0.0
-    tol = max(TOL_GAIN_REL * max(1.0, climb, 1e-3 * abs(f0)), tol_floor)
+    if Wm is not None:
+        tol = max(ABS_TOL_GAP * max(1.0, 1e-3 * abs(f0)), tol_floor)
+    else:
+        tol = max(TOL_GAIN_REL * max(1.0, climb, 1e-3 * abs(f0)), tol_floor)
     scale = max(1.0, float(np.linalg.norm(xh)))
     cands = []
+    if Wm is not None:
+        for _ in range(48):
+            u = rs.standard_normal(n); u /= max(np.linalg.norm(u), 1e-300)
+            cands.append(("random_sd", xh + Wm @ u * 10 ** rs.uniform(-2, 0.5)))
+        if n <= 40:
+            # central differences of the library's own logd along the whitened axes -> its Newton step
+            hh = 0.5
+            gw = np.zeros(n); ok = True
+            for i in range(n):
+                xp_, xm_ = xh + hh * Wm[:, i], xh - hh * Wm[:, i]
+                cands.append(("whitened_axis", xp_)); cands.append(("whitened_axis", xm_))
+                fp, fm = _safe_logd(dens, xp_), _safe_logd(dens, xm_)
+                if fp is None or fm is None or not (np.isfinite(fp) and np.isfinite(fm)):
+                    ok = False; break
+                gw[i] = (fp - fm) / (2 * hh)
+            if ok and np.linalg.norm(gw) > 0:
+                for t in (1.0, 0.5, 0.1):
+                    cands.append(("newton_fd", xh + t * (Wm @ gw)))
     for _ in range(64):
         d = rs.standard_normal(n); d /= max(np.linalg.norm(d), 1e-300)
         cands.append(("random", xh + d * scale * 10 ** rs.uniform(-3, -1)))
@@ -295,6 +329,9 @@ def probe_estimate(ctx, cfg, dens, xh, x_start, rs, f_ref=None, smooth=True, lab
     if g is not None and np.linalg.norm(g) > 0:
         for t in (1e-5, 1e-4, 1e-3, 1e-2):
             cands.append(("gradient", xh + t * scale * g / np.linalg.norm(g)))
+        if Wm is not None:
+            for t in (1.0, 0.3, 0.03):
+                cands.append(("newton", xh + t * (Wm @ (Wm.T @ g))))
     # independent search for a better nearby point (on the numpy reference density when there is one)
     F = f_ref if f_ref is not None else (lambda x: _safe_logd(dens, x) or -np.inf)
     try:
@@ -337,7 +374,16 @@ def probe_estimate(ctx, cfg, dens, xh, x_start, rs, f_ref=None, smooth=True, lab
             ctx.violation("not_local_max_of_reference_density", c2,
                           f"{label}: the library's logd sees no better neighbour (gain {best:.3g}) but the independent "
                           f"log-density does (gain {rbest:.3g}): estimate maximises a different function")
-    if g is not None:
+    if g is not None and Wm is not None:
+        # Newton decrement 0.5 g^T H^-1 g: the log-density still to be gained according to the library's own gradient
+        dec = 0.5 * float(np.sum((Wm.T @ g) ** 2))
+        ctx.count("gradient_norm_checked")
+        facts["newton_decrement"] = dec
+        if dec > tol and smooth:
+            ctx.violation("gradient_not_vanishing", c2,
+                          f"{label}: gradient of logd at the returned estimate has Newton decrement 0.5 g^T H^-1 g = {dec:.3g} "
+                          f"({np.sqrt(2*dec):.3g} standard deviations from stationarity; tolerance {tol:.3g})")
+    elif g is not None:
         gs = 0.0
         for xx in (x_start, xh + 0.1 * scale * np.ones(n) / np.sqrt(n), xh - 0.07 * scale * np.arange(1, n + 1) / np.linalg.norm(np.arange(1, n + 1))):
             try:
